@@ -36,6 +36,9 @@ pub struct C18World {
     pub first: String,
     /// build profile of the child that runs the scenario: "release" | "debug" (opt-level 0: larger frames)
     pub profile: String,
+    /// how the container is built: "insert" (key by key) | "extend" (one `extend` call over the whole key order) |
+    /// "extend_batches" (`extend` calls of 1..4096 keys)
+    pub build: String,
 }
 
 const GUARD: usize = 64 << 10;
@@ -50,7 +53,7 @@ fn grid(tier: Tier) -> Vec<C18World> {
     let mut g = Vec::new();
     let base = |kind: &str, stack: u64, n: u64, shape: &str, teardown: &str| C18World {
         kind: kind.into(), stack_bytes: stack, n, shape: shape.into(), shape_seed: 1, post: "none".into(), post_count: 0,
-        teardown: teardown.into(), partial: n / 3, op: "intersection".into(), first: "none".into(), profile: "release".into(),
+        teardown: teardown.into(), partial: n / 3, op: "intersection".into(), first: "none".into(), profile: "release".into(), build: "insert".into(),
     };
     // every teardown mode on both chain directions at 3e6 keys, both budgets
     for (i, td) in TEARDOWNS.iter().enumerate() {
@@ -68,6 +71,16 @@ fn grid(tier: Tier) -> Vec<C18World> {
             w.first = (*f).into();
             g.push(w);
         }
+    }
+    // built by `extend` (one call / batches) instead of key-by-key insertion
+    for (i, (sh, b)) in [("asc", "extend"), ("desc", "extend"), ("zigzag", "extend"), ("asc", "extend_batches"), ("desc", "extend_batches"), ("blocks", "extend")].iter().enumerate() {
+        let mut w = base(if i % 2 == 0 { "tree" } else { "set" }, STACKS[i % 2], 3_000_000, sh, if i % 3 == 2 { "partial_back" } else { "drop" });
+        w.build = (*b).into();
+        g.push(w);
+        let mut w = base(if i % 2 == 1 { "tree" } else { "set" }, 2 << 20, 60_000, sh, "drop");
+        w.build = (*b).into();
+        w.profile = "debug".into();
+        g.push(w);
     }
     // chain partially restructured by lookups / removals before teardown
     let mut w = base("tree", 2 << 20, 2_000_000, "asc", "drop");
@@ -226,6 +239,7 @@ fn key_order(w: &C18World) -> Vec<u64> {
 
 trait Cont {
     fn ins(&mut self, k: u64);
+    fn ext(&mut self, ks: &mut dyn Iterator<Item = u64>);
     fn has(&self, k: u64) -> bool;
     fn succ(&self, k: u64) -> Option<u64>;
     fn pred(&self, k: u64) -> Option<u64>;
@@ -244,6 +258,9 @@ type S = SplaySet<PK, fn(&PK, &PK) -> Ordering>;
 impl Cont for T {
     fn ins(&mut self, k: u64) {
         self.insert(PK(k), k as u32);
+    }
+    fn ext(&mut self, ks: &mut dyn Iterator<Item = u64>) {
+        self.extend(ks.map(|k| (PK(k), k as u32)));
     }
     fn has(&self, k: u64) -> bool {
         self.contains(&PK(k))
@@ -287,6 +304,9 @@ impl Cont for T {
 impl Cont for S {
     fn ins(&mut self, k: u64) {
         self.insert(PK(k));
+    }
+    fn ext(&mut self, ks: &mut dyn Iterator<Item = u64>) {
+        self.extend(ks.map(PK));
     }
     fn has(&self, k: u64) -> bool {
         self.contains(&PK(k))
@@ -332,8 +352,22 @@ fn tree_scenario<C: Cont>(w: &C18World, mut c: C) {
     let order = key_order(w);
     marker("build");
     // even keys only, so that odd keys are absent neighbours for queries
-    for k in &order {
-        c.ins(k * 2);
+    match w.build.as_str() {
+        "extend" => c.ext(&mut order.iter().map(|k| k * 2)),
+        "extend_batches" => {
+            let mut br = Rng::stream(w.shape_seed, "batches");
+            let mut i = 0usize;
+            while i < order.len() {
+                let j = (i + 1 + br.below(4096) as usize).min(order.len());
+                c.ext(&mut order[i..j].iter().map(|k| k * 2));
+                i = j;
+            }
+        }
+        _ => {
+            for k in &order {
+                c.ins(k * 2);
+            }
+        }
     }
     marker(&format!("built len={} depth={}", c.size(), depth()));
     let n = w.n;
@@ -397,9 +431,7 @@ fn tree_scenario<C: Cont>(w: &C18World, mut c: C) {
         }
         _ => {
             // extend with a second monotone batch, then drop
-            for k in 0..n / 2 {
-                c.ins(2 * (n + k));
-            }
+            c.ext(&mut (0..n / 2).map(|k| 2 * (n + k)));
             drop(c)
         }
     }
@@ -673,12 +705,13 @@ impl World for C18World {
             },
             first: (*r.pick(&FIRSTS)).into(),
             profile: profile.into(),
+            build: (*r.pick(&["insert", "insert", "extend", "extend_batches"])).into(),
         }
     }
 
     fn to_json(&self) -> Value {
         json!({"kind": self.kind, "stack_bytes": self.stack_bytes, "n": self.n, "shape": self.shape, "shape_seed": self.shape_seed,
-            "post": self.post, "post_count": self.post_count, "teardown": self.teardown, "partial": self.partial, "op": self.op, "first": self.first, "profile": self.profile})
+            "post": self.post, "post_count": self.post_count, "teardown": self.teardown, "partial": self.partial, "op": self.op, "first": self.first, "profile": self.profile, "build": self.build})
     }
 
     fn from_json(v: &Value) -> Result<Self, String> {
@@ -689,6 +722,7 @@ impl World for C18World {
             post: s("post")?, post_count: u("post_count")?, teardown: s("teardown")?, partial: u("partial")?, op: s("op")?,
             first: v["first"].as_str().unwrap_or("none").to_string(),
             profile: v["profile"].as_str().unwrap_or("release").to_string(),
+            build: v["build"].as_str().unwrap_or("insert").to_string(),
         })
     }
 
@@ -801,6 +835,7 @@ impl World for C18World {
         push(&|w| { w.post = "none".into(); w.post_count = 0 });
         push(&|w| w.shape = "asc".into());
         push(&|w| w.first = "none".into());
+        push(&|w| w.build = "insert".into());
         push(&|w| w.profile = "release".into());
         push(&|w| if !w.kind.starts_with("boolean") { w.teardown = "drop".into() });
         push(&|w| if w.kind == "set" { w.kind = "tree".into() });
@@ -812,7 +847,7 @@ impl World for C18World {
     }
 
     fn signature(&self) -> String {
-        format!("c18:{}:{}:{}:{}:{}:{}", self.kind, self.shape, if self.kind.starts_with("boolean") { &self.op } else { &self.teardown }, self.first, self.profile, self.stack_bytes >> 20)
+        format!("c18:{}:{}:{}:{}:{}:{}:{}", self.kind, self.shape, if self.kind.starts_with("boolean") { &self.op } else { &self.teardown }, self.first, self.profile, self.stack_bytes >> 20, self.build)
     }
 }
 
